@@ -38,6 +38,11 @@ type exec struct {
 	cur      string // reach condition of current block
 	retCount int
 	specEnvBase *SpecEnv
+	// engine-level ghost state, materialised only when the contract mentions it
+	useVisited bool
+	useEval    bool
+	rangeOrd   map[*ssa.Range]int    // ordinal of each map iteration (source order)
+	rangeRow   map[*ssa.Range]string // presence row of the ranged map when the iteration started
 }
 
 func posStr(fset *token.FileSet, p token.Pos) string {
@@ -121,6 +126,10 @@ func (eng *Engine) verifyFunctionTagged(fn *ssa.Function, fc *FuncContract, tag 
 		return vc
 	}
 	ex.loops = loops
+	ex.useVisited = fc.mentions("visited(")
+	ex.useEval = fc.mentions("evalcount(")
+	ex.rangeOrd = map[*ssa.Range]int{}
+	ex.rangeRow = map[*ssa.Range]string{}
 	for _, l := range loops {
 		ex.loopOf[l.header] = l
 		if os.Getenv("BMVERIF_DEBUG_LOCALS") != "" {
@@ -530,6 +539,10 @@ func (ex *exec) loopHead(li *loopInfo, st *State) {
 		n := vc.freshConst("l_"+a.Comment, vc.sorts.sortOf(t))
 		vc.assume("true", vc.sorts.typeInv(t, n, st.nextRef))
 		st.locals[a] = n
+	}
+	// engine-level ghost state changed by the body
+	for _, gh := range ex.loopGhosts(li) {
+		vc.heapHavoc(st, gh)
 	}
 	// automatically inferred frame facts (sound by construction):
 	ex.autoLoopFacts(li, pre, st)
@@ -1779,6 +1792,84 @@ func (ex *exec) chanOp(st *State, ins ssa.Instruction) {
 func (ex *exec) rangeInit(st *State, x *ssa.Range) {
 	v := ex.val(x.X)
 	ex.vc.vals[x] = Val{T: v.T, S: v.S, Typ: x.X.Type()}
+	if mt, ok := x.X.Type().Underlying().(*types.Map); ok && ex.useVisited {
+		vc := ex.vc
+		has, _ := vc.mapHeaps(mt)
+		ks := vc.sorts.sortOf(mt.Key())
+		ex.rangeRow[x] = vc.define("range_row0", "(Array "+ks+" Bool)", "(select "+vc.heapGet(st, has)+" "+v.T+")")
+		vc.heapSet(st, ex.visitedOf(x), "((as const (Array "+ks+" Bool)) false)")
+	}
+}
+
+// visitedOf: the ghost set of keys already produced by this map iteration.
+func (ex *exec) visitedOf(x *ssa.Range) *heapInfo {
+	n, ok := ex.rangeOrd[x]
+	if !ok {
+		// ordinal by source position among the map iterations of the function
+		var all []*ssa.Range
+		for _, b := range ex.fn.Blocks {
+			for _, ins := range b.Instrs {
+				if r, ok := ins.(*ssa.Range); ok {
+					if _, isMap := r.X.Type().Underlying().(*types.Map); isMap {
+						all = append(all, r)
+					}
+				}
+			}
+		}
+		sort.Slice(all, func(i, j int) bool { return all[i].Pos() < all[j].Pos() })
+		for i, r := range all {
+			ex.rangeOrd[r] = i + 1
+		}
+		n = ex.rangeOrd[x]
+	}
+	mt := x.X.Type().Underlying().(*types.Map)
+	return ex.vc.visitedHeap(n, ex.vc.sorts.sortOf(mt.Key()))
+}
+
+// rangeOfLoop: the map iteration that drives the loop (its Next is in the loop's header block).
+func (ex *exec) rangeOfLoop(li *loopInfo) *ssa.Range {
+	for _, ins := range li.header.Instrs {
+		if nx, ok := ins.(*ssa.Next); ok {
+			if r, ok := nx.Iter.(*ssa.Range); ok {
+				if _, isMap := r.X.Type().Underlying().(*types.Map); isMap {
+					return r
+				}
+			}
+		}
+	}
+	return nil
+}
+
+// loopGhosts: engine-level ghost state a loop body changes (havocked at the loop head, constrained by invariants).
+func (ex *exec) loopGhosts(li *loopInfo) []*heapInfo {
+	var out []*heapInfo
+	seen := map[string]bool{}
+	calls := false
+	for b := range li.blocks {
+		for _, ins := range b.Instrs {
+			switch x := ins.(type) {
+			case *ssa.Next:
+				if r, ok := x.Iter.(*ssa.Range); ok && ex.useVisited {
+					if _, isMap := r.X.Type().Underlying().(*types.Map); isMap {
+						hi := ex.visitedOf(r)
+						if !seen[hi.name] {
+							seen[hi.name] = true
+							out = append(out, hi)
+						}
+					}
+				}
+			case *ssa.Call:
+				if _, isB := x.Call.Value.(*ssa.Builtin); !isB {
+					calls = true
+				}
+			}
+		}
+	}
+	if calls && ex.useEval {
+		out = append(out, ex.vc.evalCountHeap())
+	}
+	sort.Slice(out, func(i, j int) bool { return out[i].name < out[j].name })
+	return out
 }
 func (ex *exec) rangeNext(st *State, x *ssa.Next) {
 	vc := ex.vc
@@ -1804,6 +1895,21 @@ func (ex *exec) rangeNext(st *State, x *ssa.Next) {
 		vc.assume(ex.cur, sImp(okc, sAnd("(not (= "+it.T+" 0))", present)))
 		v := vc.define("next_v", vc.sorts.sortOf(t.Elem()), "(select (select "+vc.heapGet(st, val)+" "+it.T+") "+k+")")
 		vc.tuples[x] = []Val{{T: okc, S: SBool, Typ: boolT}, {T: k, S: ks, Typ: t.Key()}, {T: v, S: vc.sorts.sortOf(t.Elem()), Typ: t.Elem()}}
+		if row0, tracked := ex.rangeRow[rng]; tracked && ex.useVisited {
+			// exact iteration for a map whose key set is the same as when the iteration started: a key is produced
+			// at most once, and the iteration ends only when every key has been produced. (Go: an entry removed
+			// before it is reached is not produced, an entry created meanwhile may or may not be; with the key set
+			// unchanged neither happens. Not distinguished: a body that removes an unvisited entry and re-creates it
+			// within one iteration - listed among the assumptions.)
+			vh := ex.visitedOf(rng)
+			vis := vc.heapGet(st, vh)
+			row := "(select " + vc.heapGet(st, has) + " " + it.T + ")"
+			vc.assume(ex.cur, sImp(okc, "(not (select "+vis+" "+k+"))"))
+			vc.assume(ex.cur, sImp(sAnd("(not "+okc+")", sEq(row, row0)),
+				"(forall ((k! "+ks+")) (! (=> (select "+row0+" k!) (select "+vis+" k!)) :pattern ((select "+row0+" k!)) :pattern ((select "+vis+" k!))))"))
+			vc.heapSet(st, vh, "(ite "+okc+" (store "+vis+" "+k+" true) "+vis+")")
+			vc.eng.noteAssumption("map iteration modelled exactly while the key set is unchanged (visited set); delete-and-recreate of an unvisited key inside one iteration is not distinguished")
+		}
 	case *types.Basic:
 		idx := vc.freshConst("next_i", SInt)
 		r := vc.freshConst("next_r", SInt)
